@@ -11,7 +11,7 @@
     are equal. *)
 From Coq Require Import ZArith List Lia Bool.
 From Low Require Import Lib.MachInt Lib.Bits Lib.BitSeq Lib.Lex Lib.Bytes Lib.BitsExtra_tree
-  Lib.SortedZ_tree4 Spec.Bmtree Spec.AllPathsSpec Model.BmtreePath Model.BmtreeIndex
+  Lib.BitsExtra_bm2 Lib.SortedZ_tree4 Spec.Bmtree Spec.AllPathsSpec Model.BmtreePath Model.BmtreeIndex
   Model.BmtreeAllPaths Proofs.BmtreePathProofs.
 Import ListNotations.
 Open Scope Z_scope.
@@ -404,4 +404,101 @@ Proof.
   intros HT Hf Ht. pose proof (Height_range T HT) as Hh. unfold AllPaths, spec_allpaths.
   unfold tblBit, tblMask. rewrite !tbl_in by lia. f_equal.
   apply allpaths_blocks; assumption.
+Qed.
+
+(** * 5. Decode, relative to the model's PathToIndex *)
+
+(** the bit of [bm] selected by the index of path word [p] (0 beyond the bitmap) *)
+Definition idx_bit (T : Z) (bm : list Z) (p : Z) : bool :=
+  match PathToIndex T p with Some idx => bitz (flat bm) idx | None => false end.
+
+Lemma bitz_beyond bm idx : zlen bm <= idx / 64 -> 0 <= idx -> bitz (flat bm) idx = false.
+Proof.
+  intros Hl Hi. unfold bitz. apply nth_overflow. rewrite flat_length. unfold zlen in Hl.
+  pose proof (Z.div_mod idx 64 ltac:(lia)). pose proof (Z.mod_pos_bound idx 64 ltac:(lia)). lia.
+Qed.
+
+Lemma bitz_word bm idx w : 0 <= idx -> nthZ bm (idx / 64) = Some w ->
+  bitz (flat bm) idx = Z.testbit w (idx mod 64).
+Proof.
+  intros Hi Hw. apply nthZ_Some in Hw. destruct Hw as (Hq & Hw).
+  rewrite <- (bitz_flat bm (Z.to_nat (idx / 64)) w (idx mod 64) Hw) by (apply Z.mod_pos_bound; lia).
+  f_equal. rewrite Z2Nat.id by lia. apply Z.div_mod. lia.
+Qed.
+
+Lemma bit_test w j : 0 <= j < 64 -> (Z.land w (shl64 1 j) =? 0) = negb (Z.testbit w j).
+Proof.
+  intros Hj. unfold shl64. replace (j <? 64) with true by (symmetry; apply Z.ltb_lt; lia).
+  unfold u64. rewrite Z.mul_1_l.
+  rewrite Z.mod_small by (split; [apply Z.lt_le_incl, pow2_pos; lia|apply pow2_lt; lia]).
+  rewrite land_pow2 by lia. pose proof (pow2_pos j ltac:(lia)).
+  destruct (Z.testbit w j); cbn [negb]; [apply Z.eqb_neq; lia|reflexivity].
+Qed.
+
+Lemma decode_loop_spec T bm : zlen bm < 2 ^ 31 -> forall paths,
+  (forall p, In p paths -> exists idx, PathToIndex T p = Some idx /\ 0 <= idx < 2 ^ 31) ->
+  decode_loop T bm paths = Some (filter (idx_bit T bm) paths).
+Proof.
+  intros Hlen. induction paths as [|p rest IH]; intros Hidx; cbn [decode_loop filter]; [reflexivity|].
+  destruct (Hidx p (or_introl eq_refl)) as (idx & Hp & Hr).
+  specialize (IH (fun q Hq => Hidx q (or_intror Hq))).
+  unfold idx_bit at 1. rewrite Hp.
+  assert (Es : sar32 idx 6 = idx / 64) by reflexivity. rewrite Es.
+  assert (Ei : i32 (zlen bm) = zlen bm).
+  { unfold i32. unfold zlen in *. rewrite Z.mod_small; [lia|].
+    change (2 ^ 31) with 2147483648 in *. change (2 ^ 32) with 4294967296. lia. }
+  rewrite Ei.
+  assert (Hq : 0 <= idx / 64) by (apply Z.div_pos; lia).
+  destruct (Z.gtb_spec (zlen bm) (idx / 64)) as [Hgt|Hle].
+  - destruct (nthZ_in_range bm (idx / 64) ltac:(lia)) as (w & Hw). rewrite Hw, IH.
+    rewrite (bitz_word bm idx w) by (lia || exact Hw).
+    rewrite land63, bit_test by (apply Z.mod_pos_bound; lia).
+    destruct (Z.testbit w (idx mod 64)); reflexivity.
+  - rewrite IH, bitz_beyond by lia. reflexivity.
+Qed.
+
+Lemma filter_all {A} (f : A -> bool) l : (forall x, In x l -> f x = true) -> filter f l = l.
+Proof.
+  induction l as [|a l IH]; cbn [filter]; [reflexivity|]. intros H.
+  rewrite (H a (or_introl eq_refl)). f_equal. apply IH. intros x Hx. apply H. now right.
+Qed.
+
+(** the full range [0, 1<<63) that Decode asks for contains every word *)
+Lemma allpaths_full T : 1 <= T < 2 ^ 31 ->
+  AllPaths T 0 (2 ^ 63) = Some (stored_words T (Z.to_nat (Height T))).
+Proof.
+  intros HT.
+  assert (H0 : 0 <= 0 < 2 ^ 64) by (split; [lia|reflexivity]).
+  assert (H63 : 0 <= 2 ^ 63 < 2 ^ 64) by (split; [discriminate|reflexivity]).
+  rewrite (allpaths_correct T 0 (2 ^ 63) HT H0 H63).
+  f_equal. unfold spec_allpaths. apply filter_all. intros w Hw.
+  pose proof (Height_range T HT) as Hh.
+  apply stored_words_bound in Hw; [|lia]. rewrite Z2Nat.id in Hw by lia.
+  assert (2 ^ (Height T + 32) <= 2 ^ 62) by (apply pow2_le; lia).
+  unfold in_window. apply andb_true_iff. split; [apply Z.leb_le; lia|apply Z.ltb_lt].
+  change (2 ^ 62) with 4611686018427387904 in *. change (2 ^ 63) with 9223372036854775808. lia.
+Qed.
+
+Lemma decode_rel T bm : 1 <= T < 2 ^ 31 -> zlen bm < 2 ^ 31 ->
+  (forall w, In w (stored_words T (Z.to_nat (Height T))) ->
+     exists idx, PathToIndex T w = Some idx /\ 0 <= idx < 2 ^ 31) ->
+  Decode T bm = Some (filter (idx_bit T bm) (stored_words T (Z.to_nat (Height T)))).
+Proof.
+  intros HT Hl Hidx. unfold Decode. rewrite allpaths_full by exact HT.
+  apply decode_loop_spec; assumption.
+Qed.
+
+(** when the index of the k-th word is k, the filter is the selection by position *)
+Lemma filter_select_by T bm : forall l base,
+  (forall k, (k < length l)%nat -> PathToIndex T (nth k l 0) = Some (Z.of_nat (base + k))) ->
+  filter (idx_bit T bm) l = select_by (flat bm) base l.
+Proof.
+  induction l as [|p l IH]; intros base H; cbn [filter select_by]; [reflexivity|].
+  pose proof (H 0%nat ltac:(cbn [length]; lia)) as H0. cbn [nth] in H0.
+  unfold idx_bit at 1. rewrite H0.
+  unfold bitz. rewrite Nat.add_0_r, Nat2Z.id.
+  rewrite (IH (S base)).
+  2:{ intros k Hk. specialize (H (S k)). cbn [nth length] in H.
+      replace (S base + k)%nat with (base + S k)%nat by lia. apply H. lia. }
+  reflexivity.
 Qed.
